@@ -1,21 +1,30 @@
 # C15 registry entry: see lib/registry.py for the field meanings
-PROP = {'rule': 'history: rapid state machine (create / createSpecial(root,system,default as the scheduler creates them) / update (1-2 edits of the '
-         'stored object) / reparent / delete / addPod / delPod) over names a..e, parent in names+root+absent, is-parent label, tree id in '
-         '{"",t1,t2}, namespaces subset of {n1,n2,n3}, min/max over {cpu,memory} with absent/0/small/fractional/huge/negative values aimed at the '
-         'min-sum and min<=max boundaries, shared-weight annotation, pods in the fake client; every request goes through the real admission order '
-         '(fillQuotaDefaultInformation + ValidAddQuota / ValidUpdateQuota(old stored, new) / ValidDeleteQuota(old stored)), optionally followed '
-         'by the informer event of the persisted change. non-trivial = the history contains an ACCEPTED parent change of a quota that has '
-         'children; distinct = FNV-64 of the full history. exhaustive: every request sequence of length <=3 (thorough: <=4) over a 3-name '
-         'universe with two values per field, in two pod environments; descent only below accepted requests because a rejected request is '
-         'verified to leave the record byte-identical.',
+PROP = {'rule': 'history: rapid state machine, one weighted "request" action (createUnder an admitted parent 3 / create top-level or arbitrary, incl. the '
+         'root/system/default objects as the scheduler creates them 2 / update = stored object with 1-2 edits 4 / reparent 4 / delete 2 / pod '
+         'add-or-remove 1; avg 20 steps) over names a..e, parent in names+root+absent(+self, descendants, missing), is-parent label, tree id '
+         'in {"",t1,t2}, namespaces subset of {n1,n2,n3}, min/max over {cpu,memory} with absent/0/small/fractional/huge/negative values aimed at '
+         'the min-sum and min<=max boundaries (exact fit, +-1), shared-weight annotation (valid/invalid), pods in the stub client (labelled or '
+         'namespace-bound); every request goes through the real admission order (fillQuotaDefaultInformation + ValidAddQuota / '
+         'ValidUpdateQuota(old stored, new) / ValidDeleteQuota(old stored)), one time in four followed by the informer event of the persisted '
+         'change. All weight decisions are uniform (built from rapid.Bool bits; rapid biases IntRange/SampledFrom/action choice to small '
+         'indices). non-trivial = the history contains an ACCEPTED parent change of a quota that has children; distinct = FNV-64 of the full '
+         'history. exhaustive: every request sequence of length <=3 (thorough: <=4, 12 shards partition the first request) over names a,b,c with '
+         'parent in {root,a,b,c}, is-parent in {T,F}, min.cpu in {1,2}, max={cpu:2}, namespaces in {none,[n1]}, in two pod environments, '
+         'breadth-first; descent only below accepted requests because a rejected request is verified to leave the whole record byte-identical; '
+         'non-trivial = the last request is a parent change (accepted or rejected) of a quota that has children.',
  'assumptions': ['feature gates that change the admission rules are pinned at their defaults (ElasticQuotaEnableUpdateResourceKey, '
                  'ElasticQuotaGuaranteeUsage, SupportParentQuotaSubmitPod, MultiQuotaTree, DisableDefaultQuota = false)',
-                 'the escape-hatch labels allow-force-update and is-root are never generated (outside the statement\'s universe)',
+                 "the escape-hatch labels allow-force-update and is-root are never generated (outside the statement's universe)",
                  'update and delete requests are only sent for stored objects and carry the stored object as oldObject (what the API server does); '
                  'creates may re-use a stored name (the API server runs admission before the storage conflict)',
                  '"a quota with pods" is asserted for pods that carry the quota-name label (the binding ValidDeleteQuota looks up); pods bound only '
                  'through their namespace are generated and counted but not asserted',
-                 'single webhook replica: informer events, when delivered, arrive in order right after the accepted request'],
+                 'pod lists come from a stub client.Client with the semantics of the manager cache for the two list shapes the webhook issues '
+                 '(field index label.quotaName as registered in pkg/util/fieldindex, and namespace listing)',
+                 'single webhook replica: informer events, when delivered, arrive in order right after the accepted request',
+                 "the child index of the ROOT (quotaHierarchyInfo[root]) may lose entries when the root object itself is admitted after other quotas "
+                 '(ValidAddQuota re-makes the entry); no clause of the statement depends on it, so it is counted, not asserted; tree-id agreement '
+                 'along edges and the recorded shared-weight / allow-lent values are likewise only counted'],
  'units': [{'name': 'webhook',
             'pkg': 'pkg/webhook/elasticquota',
             'files': ['C15/c15_quota_tree_test.go'],
@@ -29,7 +38,7 @@ PROP = {'rule': 'history: rapid state machine (create / createSpecial(root,syste
                       'after every accepted request that the admitted set is a forest under the root (parents exist and are marked is-parent, no '
                       'cycle, min<=max and keys(min) within keys(max), children min sum <= parent min, dimensions agree along edges, one quota per '
                       'namespace, deleted quotas had no children / labelled pods) and that getQuotaTopologyInfo(), TreeID and namespaceToQuotaMap '
-                      'say the same; after every rejected request the whole record must be byte-identical. All sequences of <=3 requests over a '
-                      '3-name universe are enumerated exhaustively. Exploration, not proof, beyond that scope.',
-              'note': "feature gates at defaults; escape-hatch labels not generated; label-bound pods only; rapid's PRNG and shrinker; Go map "
-                      'iteration inside koordinator is not controlled'}}
+                      'say the same; after every rejected request the whole record must be byte-identical. All sequences of <=3 (thorough <=4) '
+                      'requests over a 3-name universe are enumerated exhaustively. Exploration, not proof, beyond that scope.',
+              'note': "feature gates at defaults; escape-hatch labels not generated; label-bound pods only; root's own child index not asserted; "
+                      "rapid's PRNG and shrinker; Go map iteration inside koordinator is not controlled"}}
